@@ -1178,9 +1178,12 @@ func TestC01(t *testing.T) {
 }
 func TestC13(t *testing.T) {
 	rapid.Check(t, func(rt *rapid.T) {
-		if rapid.IntRange(0, 3).Draw(rt, "c13part") == 0 {
+		switch rapid.IntRange(0, 7).Draw(rt, "c13part") {
+		case 0, 1:
 			runC13locker(rt)
-		} else {
+		case 2:
+			runC13suspender(rt)
+		default:
 			runDraw(rt, "C13")
 		}
 	})
